@@ -188,6 +188,28 @@ def hold_failures(binp):
                     break
             if not d.get("blocked") and not d.get("error") and len(d.get("fresh") or []) != d["depth"]:
                 why.append("expected a fresh call through each of the %d handles" % d["depth"])
+        elif d["scenario"] == "escaped":
+            if d.get("error"):
+                why.append(d["error"])
+            if d.get("blocked"):
+                why.append("a call made while an execution was in progress blocked instead of failing fast")
+            h = d.get("holder")
+            if h and classify(h)[0] != "admitted":
+                why.append("holder: %s" % (classify(h)[1],))
+            for c in d.get("during") or []:
+                if classify(c)[0] != "rejected":
+                    why.append("while an execution was inside the underlying job, a call whose context is %s was not rejected (%s): %s" % (
+                        c.get("ctx_origin"), "it ran the job as well" if c["entered"] else classify(c)[1], json.dumps(c)))
+                    break
+            if not d.get("blocked") and not d.get("error") and len(d.get("during") or []) != 9:
+                why.append("expected 9 calls during the hold")
+            for c in d.get("fresh") or []:
+                if classify(c)[0] != "admitted":
+                    why.append("after the holder (outcome %s) had returned, a call whose context is %s was not admitted: %s" % (
+                        d["outcome"], c.get("ctx_origin"), classify(c)[1] or classify(c)[0]))
+                    break
+            if not d.get("blocked") and not d.get("error") and len(d.get("fresh") or []) != 9:
+                why.append("expected 9 calls after the hold")
         else:
             # sequential / chained: every call is made after the previous one returned, so nothing is in progress
             for n, c in enumerate(d["calls"]):
@@ -208,9 +230,15 @@ def hold_failures(binp):
                 how = ("jobsh isolated hold, scenario `handles`: an isolated job wrapped a second (third) time, every handle of the chain in use; "
                        "the holder is blocked inside the underlying job through one handle, then 4 calls go through each handle in turn "
                        "(20 s watchdog each), the holder is released, then one call goes through each handle")
+            if d["scenario"] == "escaped":
+                case.update({"max_inflight": d.get("max_inflight"), "holder": d.get("holder"), "during": d.get("during"), "fresh": d.get("fresh")})
+                how = ("jobsh isolated hold, scenario `escaped`: the wrapped job keeps the ctx argument of a finished execution and hands the ctx "
+                       "argument of the running one to another goroutine; while the holder is blocked inside the job, calls are made with these "
+                       "contexts, with contexts derived from them (WithValue / WithCancel / WithTimeout) and with Background (20 s watchdog each); "
+                       "after the holder returned the same contexts are used again")
             fails.append({"case": case, "why": why, "how": how})
-    if len(recs) != 11:
-        fails.append({"case": {"kind": "hold"}, "why": ["expected 11 scenario records, got %d" % len(recs)], "detail": out[-800:]})
+    if len(recs) != 13:
+        fails.append({"case": {"kind": "hold"}, "why": ["expected 13 scenario records, got %d" % len(recs)], "detail": out[-800:]})
     return fails, recs
 
 
@@ -389,7 +417,8 @@ def run(ctx):
                 "not judged for admitted calls. non-trivial = admitted executions (each is followed by a release the next admission depends on). hold: holder "
                 "blocked inside the job, 50 calls rejected, gate reopens after ok/error/panic; sequential series (incl. already cancelled / expired "
                 "contexts and an underlying job that ends with another busy isolated job's fail-fast error, plain and wrapped), an isolated job wrapped a second and third time with calls through every handle of the chain while one "
-                "execution is in flight, and chained / "
+                "execution is in flight, calls with contexts that escaped from the wrapped job (ctx of a finished / of the running execution and "
+                "contexts derived from them) while one execution is in flight and afterwards, and chained / "
                 "nested isolated jobs all admitted. sched: "
                 "real scheduler, 4 ms trigger, 25 ms job. model tie: complete small histories linearised and replayed in Coq.",
         "samples": stress_info[:3] + tie_info[:1],
